@@ -874,6 +874,13 @@ vyukov_hash_map<Key, Value, Policies...>::iterator::iterator(iterator&& other) :
 
 template <class Key, class Value, class... Policies>
 auto vyukov_hash_map<Key, Value, Policies...>::iterator::operator=(iterator&& other) -> iterator& {
+  if (this == &other) {
+    return *this;
+  }
+
+  // release the bucket lock we are currently holding (if any)
+  reset();
+
   block = std::move(other.block);
   current_bucket = std::move(other.current_bucket);
   current_bucket_state = std::move(other.current_bucket_state);
